@@ -311,6 +311,10 @@ fn join(tokens: &[String]) -> String {
 
 pub fn replay(case: &serde_json::Value) -> i32 {
     let src = case["input"].as_str().unwrap();
+    if let Some(al) = case["aliases"].as_array() {
+        println!("input {src:?} parsed with the alias table {al:?}: run `./check C06` — the table is one of ALIAS_TABLES; a hang is reported by the 30 s watchdog");
+        return 1;
+    }
     let r = catch(|| parse_program(src));
     println!("input {src:?}\nparse: {:?}", r.as_ref().map(|r| r.as_ref().map(|l| l.iter().map(|x| x.to_string()).collect::<Vec<_>>())));
     1
